@@ -662,6 +662,12 @@ func (m *monitors) atQuiescence(r *run) {
 		if a.gone {
 			continue
 		}
+		if r.storm[a.name] {
+			// its requests were cut off (it re-sent a refused request without end): what its other
+			// datatypes missed since then is the simulator's doing, not the system's
+			r.probe("storm-client-left-out")
+			continue
+		}
 		for _, d := range a.dts {
 			if d.dt.GetState() != model.StateOfDatatype_SUBSCRIBED {
 				continue
